@@ -11,6 +11,7 @@ pub mod c08;
 pub mod c09;
 pub mod c10;
 pub mod c11;
+pub mod c19;
 
 pub const ALL: &[&str] = &[
     "C01", "C02", "C03", "C04", "C05", "C06", "C07", "C08", "C09", "C10", "C11", "C12", "C13", "C14", "C15", "C16", "C17", "C18", "C19",
@@ -28,6 +29,7 @@ pub fn run(ctx: &mut Ctx) {
         "C09" => c09::run(ctx),
         "C10" => c10::run(ctx),
         "C11" => c11::run(ctx),
+        "C19" => c19::run(ctx),
         other => {
             eprintln!("{other}: no engine built yet");
             std::process::exit(2);
@@ -47,6 +49,7 @@ pub fn replay(ctx: &mut Ctx, stage: &str, case: &Value) -> Result<(), String> {
         "C09" => c09::replay(ctx, stage, case),
         "C10" => c10::replay(ctx, stage, case),
         "C11" => c11::replay(ctx, stage, case),
+        "C19" => c19::replay(ctx, stage, case),
         other => Err(format!("{other}: no engine built yet")),
     }
 }
